@@ -86,7 +86,7 @@ Qed.
 Lemma restart_pre_cps ih ivs st vals log (P : res kstate -> Prop) :
   1 <= ih -> vwf ivs -> SI ih ivs st ->
   (forall s0, stores_of s0 = st -> st_log s0 = log -> st_vals s0 = vals ->
-      INV ih ivs s0 -> tinv s0 -> comvals ih ivs s0 -> ne_state s0 -> n1 s0 -> kok s0 ->
+      INV ih ivs s0 -> tinv s0 -> comvals ih ivs s0 -> ne_state s0 -> n1 s0 -> kok s0 -> loadedv s0 ->
       P (Ok s0)) ->
   P (restart_pre ih ivs st vals log).
 Proof.
@@ -111,7 +111,7 @@ Proof.
       pose proof (loaded_state_ok ih ivs st vals log evs vh vr ch cr Hih Hnhr Hfine Hcert Hrounds Hrep ivs Evs
                     com None vot0 nxt0 cpv Lv Ln Hivs) as HS end.
     cbv zeta in HS. rewrite Hnhr in HS. unfold dressed in HS.
-    destruct HS as (S1&S2&S3&S4&S5&S6).
+    destruct HS as (S1&S2&S3&S4&S5&S6&S7).
     + cbn [v_h]. lia.
     + cbn [v_r]. lia.
     + apply auth_view_fresh.
@@ -171,7 +171,7 @@ Proof.
       pose proof (loaded_state_ok ih ivs st vals log evs vh vr ch cr Hih Hnhr Hfine Hcert Hrounds Hrep (hd_next x) Evs
                     com (Some x) vot0 nxt0 cpv Lv Ln Hxnext) as HS end.
     cbv zeta in HS. rewrite Hnhr in HS. unfold dressed in HS.
-    destruct HS as (S1&S2&S3&S4&S5&S6).
+    destruct HS as (S1&S2&S3&S4&S5&S6&S7).
     + cbn. exact C1.
     + cbn. exact C2.
     + apply auth_view_bump. destruct C5 as [A B]. split; cbn; [exact A|]. first [exact B|rewrite <- Evpc; exact B|rewrite Evpc; exact B].
@@ -244,7 +244,7 @@ Proof.
   rewrite restart_eq, (restart_pre_ahead ih ivs st0 h x vals log Hvh Hlt).
   assert (Hpre : exists s0, restart_pre ih ivs st0 vals log = Ok s0 /\ tinv s0).
   { apply (restart_pre_cps ih ivs st0 vals log (fun r => exists s0, r = Ok s0 /\ tinv s0) Hih Hivs HSI).
-    intros s0 _ _ _ _ HT _ _ _ _. exists s0. split; [reflexivity|exact HT]. }
+    intros s0 _ _ _ _ HT _ _ _ _ _. exists s0. split; [reflexivity|exact HT]. }
   destruct Hpre as (s0&E0&HT). rewrite E0. cbn [bind].
   destruct (recheck_total_tinv (set_hdrs s0 (hstore_set (sr_hdrs st0) h x)) HT) as (s1&E1).
   rewrite E1. cbn [bind]. eexists; reflexivity.
